@@ -463,7 +463,12 @@ fn equiv(args: &Args, b: &mut Batcher, rng: &mut SmallRng) {
         progs.push(gen::random_program(rng, len, true, 4));
     }
     for (i, prog) in progs.into_iter().enumerate() {
-        let m = if i % 5 == 0 { machines()[1].1.clone() } else { Snap::default() };
+        let mut m = if i % 5 == 0 || i % 3 == 1 { machines()[1].1.clone() } else { Snap::default() };
+        // "from the same machine state" includes a program counter inside the program (a machine
+        // that is continued after a halt or a partial run): every third case starts at pc 1..
+        if i % 3 == 1 && prog.len() > 1 {
+            m.pc = 1 + (i / 3) % (prog.len() - 1).min(7);
+        }
         let mut outs = vec![];
         for how in [How::ExecOps, How::BytecodeOwned, How::BytecodeBorrowed] {
             let mut cfg = std_cfg(prog.clone(), m.clone());
